@@ -20,6 +20,28 @@ def lstripSlash (s : String) : String := String.ofList (s.toList.dropWhile (· =
 /-- `utils.join_path(path, p)` as the code computes it -/
 def joinPathC (path p : String) : String := joinPath rstripSlash lstripSlash path p
 
+/-- `join_path(path, *paths)`: the fold over the further parts -/
+def joinPaths (path : String) (parts : List String) : String := parts.foldl joinPathC path
+
+def stripPrefixChars : List Char → List Char → Option (List Char)
+  | [], s => some s
+  | _ :: _, [] => none
+  | p :: ps, c :: cs => if p == c then stripPrefixChars ps cs else none
+
+/-- utils.py `remove_prefix`: `s[len(prefix):]` if `s.startswith(prefix)` else `s` -/
+def removePrefix (s pre : String) : String :=
+  match stripPrefixChars pre.toList s.toList with
+  | some r => String.ofList r
+  | none => s
+
+/-- utils.py `remove_suffix`: `s[0:-len(suffix)]` if `suffix and s.endswith(suffix)` else `s` -/
+def removeSuffix (s suf : String) : String :=
+  if suf == "" then s
+  else
+    match stripPrefixChars suf.toList.reverse s.toList.reverse with
+    | some r => String.ofList r.reverse
+    | none => s
+
 /-- the annotation heap: cells holding the lists users passed as `errors=[…]`; several methods may
 share one cell -/
 abbrev Heap := List (List Int)
